@@ -30,8 +30,9 @@ Inductive ev :=
 | EStop                          (* the context is cancelled *)
 | EExit                          (* the worker notices the cancelled context and returns *)
 | ERestart                       (* the process is gone (crash or exit); a new one runs init: loadState + sync *)
-| EReplace (same_id : bool) (content : bytes)  (* the file at the path is replaced by another file;
-                                    same_id: the new file got the identity (inode) of the old one *)
+| EReplace (id : nat) (content : bytes)  (* the file at the path is replaced by another file (or rewritten
+                                    from scratch) with identity [id] - which may be a NEW identity or, when
+                                    the inode is re-used or the file was truncated in place, an old one *)
 | ESync.                         (* periodic sync: scanPaths + mergeDescs + syncWorkers *)
 
 Inductive obs :=
@@ -154,8 +155,8 @@ Definition step (s : st) (e : ev) : st * list obs :=
   | ERestart =>
       let '(d, _) := merge_desc (persisted s) (fid s) (length (file s)) in
       (fresh_worker s d (persisted s), [ORestart (d_off d)])
-  | EReplace same content =>
-      (mkSt content (if same then fid s else S (fid s)) (wfile s) false (rpos s) (buf s) (ppos s) (recs s) (woff s) (ph s)
+  | EReplace id content =>
+      (mkSt content id (wfile s) false (rpos s) (buf s) (ppos s) (recs s) (woff s) (ph s)
             (until_eof s) (stopping s) (attached s) (dsc s) (persisted s), [])
   | ESync =>
       let '(d, kept) := merge_desc (Some (dsc s)) (fid s) (length (file s)) in
